@@ -16,7 +16,9 @@ func (tb *tokenBucket) adjustOnFailure(statusCode int) {
 	// For rate limiting errors, impose a penalty period.
 	case statusCode == 429 || statusCode == 403 || statusCode == 408 || statusCode == 425:
 		tb.failureCount++
-		penalty := min(time.Duration(float64(basePenaltyDuration)*math.Pow(2, float64(tb.failureCount-1))), maxPenaltyDuration)
+		// Cap the exponent: beyond 2^62 ns the float to Duration conversion overflows to a
+		// negative penalty, which ended the penalty period in the past (32 failures in a row)
+		penalty := min(time.Duration(float64(basePenaltyDuration)*math.Pow(2, float64(min(tb.failureCount-1, 8)))), maxPenaltyDuration)
 		tb.penaltyUntil = now.Add(penalty)
 		// Optionally, clear tokens to prevent immediate further requests.
 		tb.tokens = 0
